@@ -416,6 +416,13 @@ def _match(atom, op, lhs, rhs):
     return False
 
 
+# `False in [x[0, 0] == y[0, 0], x[-1, 1] == y[-1, 1]]` is `not (starts equal and ends equal)`: the raise is guarded by an
+# inequality between the two interval arrays
+FACET_ALTERNATIVES = [
+    F("util.merge_labeled_intervals", "misaligned", "!=", ["p:x_intervals"], ["p:y_intervals"]),
+]
+
+
 def rule_facets(ctx):
     cache = {}
     for func, name, op, lhs, rhs in FACETS:
@@ -435,6 +442,10 @@ def rule_facets(ctx):
             if r.exc not in ("ValueError", "InvalidChordException"):
                 continue
             if any(_match(a, op, lhs, rhs) for a in atoms):
+                hit = r
+                break
+            # other spellings of the same documented check
+            if any(_match(a, op2, l2, r2) for (f2, n2, op2, l2, r2) in FACET_ALTERNATIVES if (f2, n2) == (func, name) for a in atoms):
                 hit = r
                 break
         yield ob("C14.FACETS", f, "%s:%s" % (func, name), hit is not None, ("raises %s when %s %s %s" % (hit.exc, lhs, op, rhs if rhs is not None else "")) if hit is not None else "no raise guarded by the documented check `%s %s %s`" % (lhs, op, rhs if rhs is not None else ""), node=hit.node if hit is not None else None)
